@@ -1,6 +1,9 @@
 """C15 - vxfw routes events capture-target-bubble and keeps focus and hover consistent."""
+import concurrent.futures as cf
 import json
 import os
+import re
+import shutil
 import time
 
 import vcheck
@@ -69,10 +72,28 @@ def _corrupt_undrawn_target(evs):
                 w, absent = o["w"], False
                 while w > 0:
                     absent = absent or reset["lays"][lay - 1][w - 1]["hid"]
-                    w = reset["parent"][w - 1]
+                    w = reset["pars"][lay - 1][w - 1]
                 if absent:
                     o["w"] = 1
                     return evs
+    return None
+
+
+def _corrupt_reparent_hover(evs):
+    """the leave/enter notifications of a frame that draws a widget under another parent dropped (the stale chain kept)"""
+    reset = evs[0]
+    lay = 1
+    for e in evs[1:]:
+        if e.get("ev") != "frame":
+            continue
+        prev, lay = lay, e["lay"]
+        if reset["pars"][prev - 1] == reset["pars"][lay - 1]:
+            continue
+        left = {o["w"] for o in e["items"] if o["cls"] == "leave"}
+        came = {o["w"] for o in e["items"] if o["cls"] == "enter"}
+        if left != came:
+            e["items"] = [o for o in e["items"] if o["cls"] not in ("leave", "enter")]
+            return evs
     return None
 
 
@@ -89,6 +110,8 @@ def sig_of(rej, scn):
         ctx.append("overlapping-siblings")
     if t in ("mouse", "tfin", "frame") and exp.get("tfin"):
         ctx.append("after-terminal-focus-in")
+    if t in ("mouse", "tfout", "frame") and exp.get("relaid"):
+        ctx.append("reparented-since-pointer-moved")
     return "C15:%s:%s:%s" % (t, why, "+".join(ctx))
 
 
@@ -108,27 +131,48 @@ def main(c):
         "order between a focus-out and its focus-in, and position of notifications relative to the event's own offers, are left open",
         "focus commands in the capture/target phase come with consume (otherwise the rest of the route is not defined by the property); "
         "notification handlers return only redraw commands",
-        "widget trees keep their parent relation; layouts change geometry, z-order and which widgets are drawn at all (a widget "
-        "that is not drawn is absent from the frame with its subtree); overlapping siblings have distinct z",
+        "layouts change geometry, z-order, which widgets are drawn at all (a widget that is not drawn is absent from the frame with "
+        "its subtree) and which parent draws a widget (the same widget instance may be a child of different parents in different "
+        "layouts); the tree that counts for the chain under the pointer, the hover set, the mouse route and the focus path is the tree "
+        "of the last drawn frame; overlapping siblings have distinct z",
         "while the widget holding the focus is not part of the last drawn frame only the target-phase offer (to it, to nobody else), the "
         "order of the phases and the stop at a consume are judged: the property does not say who its ancestors are; a frame that does "
         "not contain the focused widget may be followed by one focus change away from it (one focus-out, one focus-in), or by none",
         "refresh is observed as a full repaint of the frame (>= cols*rows printed cells) on a static screen",
     ]
     if not c.replay:
-        ok, _ = c.model_check(specs, "MC_Routing.tla", "MC_Routing.cfg" if c.tier == "quick" else "MC_Routing_deep.cfg")
+        # the three negative controls run beside the exhaustive model (plain TLC runs; their bookkeeping is done here, in order)
+        negs = [("MC_Routing_asfound.cfg", "the transcription of the unrepaired dispatch (path refreshed only at frames, every overlapping "
+                 "sibling hit, enter on terminal focus-in)"),
+                ("MC_Routing_staletarget.cfg", "a dispatch whose target is the end of the path (and not the focused widget), on the tree "
+                 "with an undrawn widget"),
+                ("MC_Routing_fastpath.cfg", "a hover update that keeps the old hit list when the deepest hit and the depth are unchanged, "
+                 "on the tab view whose pages hand a shared leaf over")]
+
+        def neg(cfg):
+            md = os.path.join(c.scratch, "mc-" + cfg[:-4])
+            rc, out = c._tlc(specs, "MC_Routing.tla", cfg, {}, 2, md, 3000, extra=("-noGenerateSpecTE",))
+            shutil.rmtree(md, ignore_errors=True)
+            return out
+        with cf.ThreadPoolExecutor(max_workers=3) as ex:
+            futs = [ex.submit(neg, cfg) for cfg, _ in negs]
+            ok, _ = c.model_check(specs, "MC_Routing.tla", "MC_Routing.cfg" if c.tier == "quick" else "MC_Routing_deep.cfg")
+            outs = [f.result() for f in futs]
         if not ok:
             raise vcheck.Inconclusive("MC_Routing: the exhaustive model did not complete without error (spec-level problem, not a verdict)")
-        ok, _ = c.model_check(specs, "MC_Routing.tla", "MC_Routing_asfound.cfg", expect_violation=True)
-        c.cov["models"][-1]["note"] = ("negative control: the transcription of the unrepaired dispatch (path refreshed only at "
-                                       "frames, every overlapping sibling hit, enter on terminal focus-in) must be refuted (refuted=%s)" % (not ok))
-        if ok:
-            c.notes.append("negative control MC_Routing_asfound was NOT refuted")
-        ok, _ = c.model_check(specs, "MC_Routing.tla", "MC_Routing_staletarget.cfg", expect_violation=True)
-        c.cov["models"][-1]["note"] = ("negative control: a dispatch whose target is the end of the path (and not the focused widget) must "
-                                       "be refuted on the tree with an undrawn widget (refuted=%s)" % (not ok))
-        if ok:
-            c.notes.append("negative control MC_Routing_staletarget was NOT refuted")
+        for (cfg, what), out in zip(negs, outs):
+            m = re.search(r"(\d+) states generated, (\d+) distinct states found", out)
+            refuted = "Invariant Conforms is violated" in out
+            if not m or not (refuted or "No error has been found" in out):
+                vcheck.log(out[-4000:])
+                raise vcheck.Inconclusive("TLC model run failed: MC_Routing.tla/%s" % cfg)
+            st = {"model": "MC_Routing.tla", "cfg": cfg, "ok": not refuted, "transitions": int(m.group(1)), "states": int(m.group(2)),
+                  "note": "negative control: %s must be refuted (refuted=%s)" % (what, refuted)}
+            c.cov["states"] += st["states"]
+            c.cov["transitions"] += st["transitions"]
+            c.cov["models"].append(st)
+            if not refuted:
+                c.notes.append("negative control %s was NOT refuted" % cfg[:-4])
     lap("models")
     td = c.drive(drv, "c15", replay=c.replay)
     lap("driver")
@@ -152,7 +196,8 @@ def main(c):
         c.cov["binding_selftest"] = vselftest.run(
             c, specs, "Routing_Trace.tla", "Routing_Trace.cfg", td, {r["scn"] for r in rejects},
             [("offer-order", _corrupt_order), ("focus-out-dropped", _corrupt_focus), ("leave-dropped", _corrupt_hover),
-             ("offer-after-consume", _corrupt_consume), ("target-of-undrawn-focus", _corrupt_undrawn_target)])
+             ("offer-after-consume", _corrupt_consume), ("target-of-undrawn-focus", _corrupt_undrawn_target),
+             ("hover-after-reparenting", _corrupt_reparent_hover)])
     lap("binding_selftest")
     c.confirm(drv, "c15", specs, "Routing_Trace.tla", "Routing_Trace.cfg", cands, sig_of)
     lap("confirm")
@@ -167,4 +212,10 @@ def main(c):
              "every capture mask x every non-root widget left out of layout 0 with its subtree: each widget of that subtree focused while "
              "undrawn (by the target, by the root bubbling, by the root capturing), keys with every single consumer and custom events "
              "before any frame, after a frame without it, after the frame that draws it and after the frame that drops it again; "
-             "random-hidden: the random family with random undrawn sets per layout; fixed corner cases; every sentinel key is itself a checked key dispatch; distinct = distinct descriptor")
+             "random-hidden: the random family with random undrawn sets per layout; reparent-tabs/stack/side: every tree shape of 4 (quick; "
+             "plus 1/32 of size 5; thorough: all of size 5) x every widget m below a non-root parent q x every sibling p of q x every capture "
+             "mask: layout 1 draws m (with its subtree) under p instead of q - only the page holding m drawn (same screen position), both "
+             "pages on one rectangle with the holder on top, or side by side - with the pointer resting on each widget of m's subtree across "
+             "the switch, then a key, every mouse class with its single consumer or none at the resting cell and at the new place, the "
+             "switch back, terminal focus out/in and the pointer leaving; random-reparent / random-hidden-reparent: the random family with "
+             "random per-layout parents, half with a page pair handing a child over under the pointer; fixed corner cases; every sentinel key is itself a checked key dispatch; distinct = distinct descriptor")
